@@ -7,6 +7,7 @@ import (
 	"math"
 	"os"
 	"path/filepath"
+	"strings"
 
 	wt "github.com/hnakamur/whispertool"
 	wcmd "github.com/hnakamur/whispertool/cmd"
@@ -72,8 +73,20 @@ func (r *randScript) install() {
 
 func uninstallRand() { vrt.RandIntn = nil; vrt.RandBytes = nil }
 
+var c20Extra = map[string]LayoutDef{}
+
+func c20Layout(tag string) LayoutDef {
+	if ld, ok := c20Extra[tag]; ok {
+		return ld
+	}
+	if strings.HasPrefix(tag, "S") {
+		return LayoutDef{Tag: tag, Spec: tag[1:], Archs: wsp.ParseLayout(tag[1:])}
+	}
+	return LayoutByTag(tag)
+}
+
 func c20Eval(c *fw.Ctx, k c20Case) (sig, desc string, draws int, nontrivial bool) {
-	ld := LayoutByTag(k.Layout)
+	ld := c20Layout(k.Layout)
 	l := wsp.Layout{Archs: ld.Archs, Method: k.Method, XFF: k.XFF}
 	p := filepath.Join(c.Dir, "gen.wsp")
 	os.Remove(p)
@@ -220,11 +233,30 @@ func answerVectors(d int, full3 int, full2 int) [][]int {
 }
 
 func runC20(c *fw.Ctx) {
-	tags := []string{"L3", "L4", "L5", "L6", "L7", "L8", "L9"}
+	tags := []string{"L3", "L4", "L5", "L6", "L7", "L8", "L9", "L10"}
 	maxes := []int{0, 1, 7, 100}
-	c.R.Bounds["grid"] = "layouts L3-L9 x max {0,1,7,100} x fill on/off x every phase in [0, coarsest step) in two eras (today, after 2038) x destination absent/existing x 3 (method, xff) pairs; rand answers: all 3^d for d<=6 draws, else <=2 deviations + all 2^d over {0,n-1} for d<=12"
-	for _, tag := range tags {
-		ld := LayoutByTag(tag)
+	extra := map[string]LayoutDef{}
+	n2 := 0
+	for _, ld := range AllSmallLayouts() { // further small multi-level layouts (every 3rd two-level; thorough: + every 40th three-level)
+		if len(ld.Archs) == 2 {
+			n2++
+			if n2%3 == 1 || c.Thorough() {
+				extra[ld.Tag] = ld
+				tags = append(tags, ld.Tag)
+			}
+		} else if len(ld.Archs) == 3 && c.Thorough() {
+			n2++
+			if n2%40 == 7 {
+				extra[ld.Tag] = ld
+				tags = append(tags, ld.Tag)
+			}
+		}
+	}
+	c20Extra = extra
+	c.R.Bounds["grid"] = "layouts L3-L10 + every 3rd small two-level layout x max {0,1,7,100} x fill on/off x every phase in [0, coarsest step) in two eras (today, after 2038) x destination absent/existing x 3 (method, xff) pairs; rand answers: all 3^d for d<=6 draws, else <=2 deviations + all 2^d over {0,n-1} for d<=12"
+	for ti, tag := range tags {
+		ld := c20Layout(tag)
+		isExtra := ti >= 8
 		sl := int64(ld.Archs[len(ld.Archs)-1].Step)
 		for ph := int64(0); ph < 2*sl; ph++ {
 			t0 := EraMid - EraMid%Period(ld.Archs)
@@ -273,6 +305,9 @@ func runC20(c *fw.Ctx) {
 					f3, f2 := 6, 12
 					if c.Thorough() {
 						f3, f2 = 8, 16
+					}
+					if isExtra {
+						f3, f2 = 3, 6
 					}
 					for _, av := range answerVectors(d, f3, f2) {
 						k := base
